@@ -466,7 +466,32 @@ def return_alts(cx, body, want):
                 out.extend((loc, a) for a in alts)
             continue
         lits = fa.bool_lits(e, want)
-        out.extend((loc, frozenset(a | set(lits))) for a in alts)
+        for a in alts:
+            m = frozenset(a | set(lits))
+            # an alternative that needs a boolean local both true and false is infeasible
+            if any(re.fullmatch(r"!var\d+", l) and l[1:] in m for l in m):
+                continue
+            # `a && b && c` is lowered to a flag that is `false` on the short-circuit edges and `c` at the end: a flag
+            # known true (false for `||`) can only have taken its value from the one non-constant definition
+            extra = set()
+            for l in m:
+                mm = re.fullmatch(r"(!?)var(\d+)", l)
+                if not mm:
+                    continue
+                truth = mm.group(1) == ""
+                consts, others = [], []
+                for dloc, dk, dn in body.defs.get(int(mm.group(2)), []):
+                    de = body.rvalue_expr(dn["rv"]) if dk == "assign" else body.call_expr(dn)
+                    if de[0] == "const" and len(de) > 2 and de[2] == "bool":
+                        consts.append(de[1] == "true")
+                    else:
+                        others.append(de)
+                if len(others) == 1 and consts and all(c != truth for c in consts):
+                    try:
+                        extra |= set(fa.bool_lits(others[0], truth))
+                    except Exception:
+                        pass
+            out.append((loc, frozenset(m | extra)))
     return out
 
 
